@@ -20,6 +20,21 @@ class Injected(OSError):
     pass
 
 
+_INJECTED_CLASSES = {}
+
+
+def injected_error(errno_, message):
+    """An OSError of the class Python itself would pick for this errno (PermissionError, FileExistsError, ...),
+    which is also an `Injected` - handlers written for the specific class must see the fault."""
+    base = type(OSError(errno_, ""))
+    if base is OSError:
+        return Injected(errno_, message)
+    cls = _INJECTED_CLASSES.get(base)
+    if cls is None:
+        cls = _INJECTED_CLASSES[base] = type("Injected" + base.__name__, (Injected, base), {})
+    return cls(errno_, message)
+
+
 class InjectedInterrupt(KeyboardInterrupt):
     """A BaseException that is not an Exception (Ctrl-C, SystemExit, CancelledError...): mode "kbd"."""
 
@@ -59,7 +74,7 @@ class Injector:
                 os._exit(9)
             if self.mode == "kbd":
                 raise InjectedInterrupt(f"injected interrupt at effect point #{idx} ({label})")
-            raise Injected(self.errno, f"injected fault at effect point #{idx} ({label})")
+            raise injected_error(self.errno, f"injected fault at effect point #{idx} ({label})")
 
     # -- proxies -----------------------------------------------------------------------------
     def _os_proxy(self):
